@@ -728,6 +728,8 @@ def check_c06(world):
                 req = [x.strip() for x in req.split(',')]
             if victim not in req or s.get('eph'):
                 continue
+            if nodes[p].get('outputs_balance'):
+                continue     # a balanced publisher keeps serving its other outputs; the per-consumer mark rule does not apply
             pp = world.live_proc(p)
             if pp is None:
                 continue
